@@ -101,6 +101,20 @@ static void c16_snap_check(struct c16_res *r)
 /* ---- factories for valid sample arguments ---- */
 enum { KL, KV, KM };
 static spif_charptr_t mk_cstr(void) { return (spif_charptr_t) vh_heapstr("abc"); }
+/* odd variants: the same text at an address whose bit 31 is set (an answer computed from a pointer's low 32 bits goes wrong there) */
+static spif_charptr_t mk_cstr_v(int v)
+{
+    if (!(v & 1)) return mk_cstr();
+    static char *page;
+    if (!page) {
+        void *want = (void *) (uintptr_t) 0x5000a0000000ULL;          /* bits 31 and 29 set */
+        page = mmap(want, 4096, PROT_READ | PROT_WRITE, MAP_PRIVATE | MAP_ANONYMOUS | MAP_FIXED_NOREPLACE, -1, 0);
+        if (page == MAP_FAILED) page = NULL;
+    }
+    if (!page) return mk_cstr();
+    strcpy(page + 64, "abc");
+    return (spif_charptr_t) (page + 64);
+}
 /* object samples by variant: odd variants are the minimal / partly empty forms of each class */
 static spif_str_t mk_str(int v) { return (v & 1) ? spif_str_new() : spif_str_new_from_ptr((spif_charptr_t) "sample"); }
 static spif_ustr_t mk_ustr(int v) { return (v & 1) ? spif_ustr_new() : spif_ustr_new_from_ptr((spif_charptr_t) "sample"); }
@@ -123,23 +137,24 @@ static void fill(spif_obj_t c, int k)
     }
 }
 /* odd variants of the list samples hold a NULL placeholder between their elements (what insert_at beyond the end leaves behind) */
+static int c16_empty_variant(int v) { return v == 2; }      /* variant 2: containers with no members at all */
 static void gap(spif_obj_t c, int k, int v) { if (k == KL && (v & 1)) SPIF_LIST_INSERT_AT((spif_list_t) c, (spif_obj_t) spif_str_new_from_ptr((spif_charptr_t) "far"), 4); }
 static spif_array_t mk_array_v(int k, int v)
 {
     spif_obj_t c = k == KM ? (spif_obj_t) SPIF_MAP_NEW(array) : k == KV ? (spif_obj_t) SPIF_VECTOR_NEW(array) : (spif_obj_t) SPIF_LIST_NEW(array);
-    fill(c, k); gap(c, k, v); return (spif_array_t) c;
+    if (!c16_empty_variant(v)) { fill(c, k); gap(c, k, v); } return (spif_array_t) c;
 }
 static spif_array_t mk_array(int k) { return mk_array_v(k, 0); }
 static spif_linked_list_t mk_llist_v(int k, int v)
 {
     spif_obj_t c = k == KM ? (spif_obj_t) SPIF_MAP_NEW(linked_list) : k == KV ? (spif_obj_t) SPIF_VECTOR_NEW(linked_list) : (spif_obj_t) SPIF_LIST_NEW(linked_list);
-    fill(c, k); gap(c, k, v); return (spif_linked_list_t) c;
+    if (!c16_empty_variant(v)) { fill(c, k); gap(c, k, v); } return (spif_linked_list_t) c;
 }
 static spif_linked_list_t mk_llist(int k) { return mk_llist_v(k, 0); }
 static spif_dlinked_list_t mk_dlist_v(int k, int v)
 {
     spif_obj_t c = k == KM ? (spif_obj_t) SPIF_MAP_NEW(dlinked_list) : k == KV ? (spif_obj_t) SPIF_VECTOR_NEW(dlinked_list) : (spif_obj_t) SPIF_LIST_NEW(dlinked_list);
-    fill(c, k); gap(c, k, v); return (spif_dlinked_list_t) c;
+    if (!c16_empty_variant(v)) { fill(c, k); gap(c, k, v); } return (spif_dlinked_list_t) c;
 }
 static spif_dlinked_list_t mk_dlist(int k) { return mk_dlist_v(k, 0); }
 static spif_list_t mk_list(void) { return (spif_list_t) mk_array(KL); }
